@@ -25,6 +25,7 @@ from __future__ import annotations
 
 import asyncio
 import dataclasses
+import errno
 import math
 import socket as _socket
 from typing import Any, Generator
@@ -148,7 +149,8 @@ RULE = (
     "serialize/deserialize), 0-5 send_packet calls and a script of 1-7 incoming datagrams of kinds {valid, truncated, extended, "
     "bit-flipped, empty, two-valid-concatenated, garbage} sent by a remote socket through SimNet with swarm-chosen loss / "
     "duplication / per-datagram delays (reordering) or injected directly; recv calls with timeouts {0, k/64, None}, slow receiver "
-    "so that bursts queue up; EAGAIN/EINTR on sendto/recvfrom; selector hold/reorder/spurious readiness. Packet domain = the "
+    "so that bursts queue up; in a quarter-to-half of the runs 1-3 pending socket errors (ECONNREFUSED) interleaved with the queued "
+    "datagrams (scenarios without sends); EAGAIN/EINTR on sendto/recvfrom; selector hold/reorder/spurious readiness. Packet domain = the "
     "entry's one-shot domain ('' is a valid line packet in one-shot mode; on asyncio endpoints it is generated only when "
     "world.avoid_known is False: D10). Non-trivial run = >=1 fault kind fired and >=1 packet sent or received."
 )
@@ -292,6 +294,18 @@ class Scenario:
             self.script.append({"i": i, "kind": kind, "data": d, "t": t / 64.0, "via": via, "must_err": must_err, "packet": p if kind == "valid" else None})
         self.t_end = t / 64.0
 
+        # ---- pending socket errors (ICMP "port unreachable" on the connected socket => ECONNREFUSED reported by the next socket
+        # call, queued datagrams stay queued) interleaved with the datagrams.  Only in scenarios without send_packet calls: a
+        # pending error legitimately makes a send fail, which is not what this property is about.
+        self.errors: list[float] = []
+        nerr = (0, 0, 1, 3)[world.choose("sockerr", 4)]
+        if nerr:
+            self.sends = []
+            for _ in range(nerr):
+                j = world.choose("err_after", len(self.script))
+                self.errors.append(self.script[j]["t"] + (0, 0, 1, 3)[world.choose("err_lag", 4)] / 64.0)
+            self.errors.sort()
+
         # ---- swarm fault configuration
         self.loss_den = draw_rate(world, "sw.loss", (0, 0, 8, 3))
         self.dup_den = draw_rate(world, "sw.dup", (0, 0, 8, 3))
@@ -316,8 +330,10 @@ class Scenario:
         self.issued = 0  # scripted datagrams handed to the network so far
         for item in self.script:
             world.at(item["t"], lambda item=item: self._emit(item))
+        for te in self.errors:
+            world.at(te, self._socket_error)
         self.outcomes: list[tuple] = []
-        world.notes.update(entry=entry.name, engine=engine, variant=variant, sends=len(self.sends), script=[(s["kind"], len(s["data"]), s["t"], s["via"]) for s in self.script], loss_den=self.loss_den, dup_den=self.dup_den, delay_mode=self.delay_mode, rx_slow=self.rx_slow)
+        world.notes.update(entry=entry.name, engine=engine, variant=variant, sends=len(self.sends), socket_errors=self.errors, script=[(s["kind"], len(s["data"]), s["t"], s["via"]) for s in self.script], loss_den=self.loss_den, dup_den=self.dup_den, delay_mode=self.delay_mode, rx_slow=self.rx_slow)
 
     # -------------------------------------------------- network side
     def _policy(self, src: SimSocket, dst: tuple, data: bytes) -> list[tuple[float, bytes]]:
@@ -349,6 +365,27 @@ class Scenario:
 
     def _delivered(self) -> None:
         self.pending -= 1
+
+    def _socket_error(self) -> None:
+        if not self.lib.sim_closed:
+            self.lib.so_error = errno.ECONNREFUSED
+            self.world.fault("errno_econnrefused")
+            self.world.log("sockerr", "lib")
+
+    def socket_error_outcome(self, exc: BaseException) -> None:
+        """an exception of recv_packet that is neither a parse error nor a crash of the protocol: the injected socket error is
+        an extra outcome that consumes no datagram; anything else on a healthy transport is a violation"""
+        if isinstance(exc, OSError) and exc.errno == errno.ECONNREFUSED and self.errors:
+            self.world.log("outcome", "rx", "oserr")
+            self.world.probe("socket-error-reported")
+            return
+        self.world.fail(
+            Violation(
+                "one-outcome-per-datagram",
+                f"{self.ctx()}: recv_packet raised {type(exc).__name__}: {exc} on a healthy transport; datagrams delivered so far {_short(self.delivered(), 400)}; outcomes so far {_short(self.outcomes, 400)}; socket errors injected at {self.errors}",
+                key=self.key("recv", f"unexpected-exception/{type(exc).__name__}"),
+            )
+        )
 
     def _emit(self, item: dict) -> None:
         self.issued += 1
@@ -462,11 +499,13 @@ def _vsleep(world: World, dt: float) -> None:
             break
 
 
-def _classify_exc(exc: BaseException) -> tuple:
+def _classify_exc(exc: BaseException) -> tuple | None:
     if isinstance(exc, DatagramProtocolParseError):
         return ("err",)
     if isinstance(exc, RuntimeError) and "crashed" in str(exc) and exc.__cause__ is not None:
         return ("crash", type(exc.__cause__).__name__)
+    if isinstance(exc, Exception):
+        return None  # socket error or something unexpected: Scenario.socket_error_outcome decides
     raise exc
 
 
@@ -501,7 +540,11 @@ def _h_sync(world: World, variant: str) -> None:
                     world.log("outcome", "rx", "timeout")
                     return False
                 except BaseException as exc:
-                    sc.record(_classify_exc(exc))
+                    res = _classify_exc(exc)
+                    if res is None:
+                        sc.socket_error_outcome(exc)
+                    else:
+                        sc.record(res)
                 else:
                     sc.record(("pkt", v))
                 return True
@@ -578,7 +621,11 @@ def _h_aio(world: World, variant: str) -> None:
                 except asyncio.CancelledError:
                     raise
                 except BaseException as exc:
-                    sc.record(_classify_exc(exc))
+                    res = _classify_exc(exc)
+                    if res is None:
+                        sc.socket_error_outcome(exc)
+                    else:
+                        sc.record(res)
                 else:
                     sc.record(("pkt", v))
                 if sc.rx_slow:
